@@ -111,6 +111,15 @@ fn run_case(target: &str, seed: u64, len: usize) -> (String, String) {
                 rec!(s.next(), at(&a, i).mul_amp(amp));
                 rec!(ca.get(), i + 1);
             }
+            // three and four channels with a gain that repeats on some, not all, channels
+            let v3: Vec<[i16; 3]> = (0..len).map(|i| [1000 + i as i16, -2000 + i as i16, 3000 - i as i16]).collect();
+            let g3 = [0.5f32, 1.0, 0.5];
+            let mut s = signal::from_iter(v3.clone()).scale_amp_per_channel(g3);
+            for i in 0..len { rec!(s.next(), v3[i].mul_amp(g3)); }
+            let v4: Vec<[i16; 4]> = (0..len).map(|i| [400 + i as i16, -800, 1600, -3200 + i as i16]).collect();
+            let g4 = [0.25f32, 1.0, 1.0, 0.25];
+            let mut s = signal::from_iter(v4.clone()).scale_amp_per_channel(g4);
+            for i in 0..len { rec!(s.next(), v4[i].mul_amp(g4)); }
         }
         "OffsetAmp::next" | "OffsetAmp::is_exhausted" | "Signal::offset_amp" => {
             let (sa, ca) = src(a.clone());
@@ -333,6 +342,14 @@ fn run_case(target: &str, seed: u64, len: usize) -> (String, String) {
             }
             let (sa, _) = src(a.clone());
             rec!(sa.into_interleaved_samples().into_iter().count(), 2 * a.len());
+            // an already exhausted signal yields no sample at all (empty source; drained borrowed source)
+            rec!(signal::from_iter(Vec::<F2>::new()).into_interleaved_samples().next_sample(), None::<i16>);
+            rec!(signal::from_interleaved_samples_iter::<_, [i32; 3]>(vec![1i32, 2]).into_interleaved_samples().into_iter().count(), 0usize);
+            {
+                let (mut sd, _) = src(a.clone());
+                for _ in 0..a.len() { let _ = sd.next(); }
+                rec!(sd.by_ref().into_interleaved_samples().into_iter().count(), 0usize);
+            }
             // into_iter in the MIDDLE of a frame: the iterator continues exactly where next_sample left off
             for k in 0..(2 * a.len() + 1).min(5) {
                 let (sa, _) = src(a.clone());
@@ -388,7 +405,8 @@ fn run_case(target: &str, seed: u64, len: usize) -> (String, String) {
             let total = len + 6;
             let data: Vec<F2> = (0..total).map(|i| [i as i16 + 1, -(i as i16) - 1]).collect();
             let (sa, ca) = src(data.clone());
-            let rb = ring_buffer::Bounded::from(vec![[0i16; 2]; cap]);
+            // (an EMPTY queue whose read position is not 0 — a recycled buffer — on odd seeds; stale slot contents non-zero)
+            let rb = if seed % 2 == 1 { ring_buffer::Bounded::from_raw_parts((seed as usize / 2) % cap, 0, vec![[77i16; 2]; cap]) } else { ring_buffer::Bounded::from(vec![[0i16; 2]; cap]) };
             let rc = t.contains("Rc");
             let (mut pa, mut pb) = (0usize, 0usize);
             let mut sched: Vec<bool> = vec![];
